@@ -140,6 +140,53 @@ def refine_check(spec, exprs, refines, inst, poly=True):
                 nlp.prove_equal(name + ":final-entry-is-the-final-node-when-dynamically-feasible", res[:, npts - 1], fin)
 
 
+def alg_poly_check(spec, refines, inst):
+    """DirectCollocation with algebraic variables: the stored per-step polynomial of z (degree d-1) passes through the
+    algebraic helper values at that step's OWN collocation times, and sample(z, grid='integrator', refine=r) evaluates it
+    (added after seeded change C08-8 / C07h: power scaling of the z polynomial taken from the first interval's step)"""
+    c = ctx()
+    spec.build()
+    ocp = spec.ocp
+    meth = spec.transcribe()
+    orc = Oracle(spec, meth).expected()
+    N, M = spec.N, spec.M
+    ts = orc.ts
+    for k in range(N):
+        nlp.assume_nonzero(ts[k + 1] - ts[k])
+    tau = [float(t) for t in meth.tau]
+    # Radau nodes of degree >= 3 (and all Gauss-Legendre nodes) are irrational: the table is exact only up to rounding (A-FLOAT)
+    eq = nlp.prove_close if (spec.degree >= 3 or spec.scheme == "legendre") else nlp.prove_equal
+    c.prove(inst + "|direct_collocation:DirectCollocation.add_variables:ensures:one-z-polynomial-per-step", len(meth.poly_coeff_z) == N * M,
+            detail="%d polynomials, %d steps" % (len(meth.poly_coeff_z), N * M))
+    for k in range(N):
+        h = (ts[k + 1] - ts[k]) / M
+        for l in range(M):
+            co = meth.poly_coeff_z[k * M + l]
+            Zc = ca.MX(meth.Zc[k][l])
+            base = "%s|direct_collocation:DirectCollocation.add_variables:ensures:z-step-polynomial[%d,%d]" % (inst, k, l)
+            c.prove(base + ":degree", ca.MX(co).shape[1] == spec.degree, detail="%d coefficients" % ca.MX(co).shape[1])
+            for j, tj in enumerate(tau):
+                eq(base + ":through-algebraic-helper[%d]" % j, poly_at(co, h * tj), Zc[:, j])
+    z = spec.atom("z")
+    for r in refines:
+        name = "%s|stage:Stage._grid_intg_fine:ensures:[z,refine=%d]" % (inst, r)
+        time, res = ocp.sample(z, grid="integrator", refine=r)
+        time, res = ca.MX(time), ca.MX(res)
+        npts = N * M * r + 1
+        c.prove(name + ":one-time-per-value", time.numel() == npts and res.shape[1] == npts,
+                detail="time entries %d, value columns %d, expected %d" % (time.numel(), res.shape[1], npts))
+        if time.numel() != npts or res.shape[1] != npts:
+            continue
+        exp_v = []
+        for k in range(N):
+            h = (ts[k + 1] - ts[k]) / M
+            for l in range(M):
+                co = meth.poly_coeff_z[k * M + l]
+                for q in range(r):
+                    exp_v.append(poly_at(co, h * q / r if q else 0 * h))
+        nlp.prove_equal(name + ":values-within-steps", res[:, :npts - 1], ca.hcat(exp_v))
+
+
 def sampler_check(spec, exprs, inst):
     """the function returned by sampler, at the gist and a time t inside integrator step (k,l), is the expression
     on the step polynomial at local time t - t_{k,l} with interval-k control"""
@@ -229,6 +276,23 @@ def tasks(tier, prop="C08"):
                 sampler_check(spec, [E("sq", 2, tuple(have))], label)
             out.append(Task(label, fn, kind="bounded", bound=dict(generated=i, query_time="symbolic within each integrator step"),
                             replay=dict(harness="task_probe", module="contracts.c08", task=label, tier=tier)))
+    if prop in ("C08", "C07"):
+        # algebraic variables under collocation: the z polynomial of every step (uniform and non-uniform grids, M > 1, degree 2..3)
+        for degree in (2, 3):
+            for gname, g, Tk in grids_all:
+                if tier != "thorough" and gname not in ("uniform", "geometric"):
+                    continue
+                if degree >= 3 and gname in ("localizeT", "freegrid"):
+                    continue        # step lengths are decision variables there: the tolerance comparison needs them numeric
+                label = "%s/DC-dae-d%d-N3-M2-%s-algebraic-polynomial" % (prop, degree, gname)
+                def fn(degree=degree, g=g, Tk=Tk, label=label):
+                    # degree 3: irrational nodes, numeric horizon so that the step length cancels in normal form (as for Gauss-Legendre below)
+                    spec = Spec(method="DC", N=3, M=2, degree=degree, grid=dict(g), T=Tk if degree < 3 else ("fixed", 1.5),
+                                t0=("unknown",) if degree < 3 else ("fixed", 0.25), algebraics=[1, 1],
+                                ode=E("f", None, ("x", "u", "z", "t")), alg=E("g", None, ("x", "z", "u")), label=label)
+                    alg_poly_check(spec, (2, 3), label)
+                out.append(Task(label, fn, kind="bounded", bound=dict(method="DC", degree=degree, N=3, M=2, grid=g, T=list(Tk), algebraics=[1, 1], refine=[2, 3]),
+                                replay=dict(harness="task_probe", module="contracts.c08", task=label, tier=tier, tasks_kw=dict(prop=prop))))
     if prop == "C08":
         # Gauss-Legendre collocation: numeric horizon (so that the step length cancels in normal form) and tolerance
         for degree in (2, 3) if tier != "thorough" else (1, 2, 3, 4):
